@@ -493,7 +493,27 @@ sqrt_mpq(mpq_class& to, const mpq_class& from, const Rounding_Dir dir) {
   mul_2exp<To_Policy, To_Policy>(to_b, to_b,
                                  irrational_precision, ROUND_IGNORE);
   to.canonicalize();
-  return (r_div != V_EQ) ? r_div : r_sqrt;
+  if (round_not_requested(dir)) {
+    // The division rounds up and the square root rounds down.
+    return V_LGE;
+  }
+  Result r = (r_div != V_EQ) ? r_div : r_sqrt;
+  if (!gt1) {
+    // The value stored is the reciprocal of the one computed.
+    switch (r) {
+    case V_LT:
+      return V_GT;
+    case V_GT:
+      return V_LT;
+    case V_LE:
+      return V_GE;
+    case V_GE:
+      return V_LE;
+    default:
+      break;
+    }
+  }
+  return r;
 }
 
 PPL_SPECIALIZE_SQRT(sqrt_mpq, mpq_class, mpq_class)
